@@ -119,7 +119,17 @@ Definition unsigned_value_to_decimal (num : Z) : fwd := expect (unsigned_fixed_t
 Definition signed_value_to_decimal (num : Z) : fwd := expect (signed_fixed_to_decimal num MARKET_DECIMALS).
 
 (* ---- fixed.rs, backward direction ----
-   Err 1 = "`value` is too big", Err 2 = "invalid scale", Err 3 = integer conversion failed *)
+   Err 1 = "`value` is too big", Err 2 = "invalid scale", Err 3 = integer conversion failed,
+   Err 0 = PANIC (see E_PANIC) *)
+(* The error value is built with format!("... value={value} ...") BEFORE it is returned.
+   Display for Decimal (str.rs to_str_internal) writes into 32-byte ArrayVec/ArrayString
+   buffers: "0." followed by [scale] digits does not fit once scale >= 31 (and the zero padding
+   itself overflows from scale 33), and arrayvec's push panics.  [rescale] can leave such a
+   scale behind because it never checks the requested scale against MAX_SCALE.
+   A panic of the backward direction is encoded as [Err E_PANIC]. *)
+Definition E_PANIC : Z := 0.
+Definition DISPLAY_PANIC_SCALE : Z := 31.
+
 Definition i128_pow10 (k : Z) : option Z := chk_s 128 (10 ^ k).   (* 10i128.checked_pow(k) *)
 
 Definition rescale_to_mantissa (d : dec) (decimals : Z) : res Z :=
@@ -127,7 +137,10 @@ Definition rescale_to_mantissa (d : dec) (decimals : Z) : res Z :=
   let scale := dsc d' in
   let mant := mantissa d' in
   if scale <? decimals then
-    of_opt 1 (m <- i128_pow10 (decimals - scale) ;; smul 128 mant m)
+    match (m <- i128_pow10 (decimals - scale) ;; smul 128 mant m) with
+    | Some v => Ok v
+    | None => if DISPLAY_PANIC_SCALE <=? scale then Err E_PANIC else Err 1
+    end
   else if scale =? decimals then Ok mant
   else Err 2.
 
